@@ -112,6 +112,15 @@ CAMPAIGNS.update({
                ex(ph(LAYOUT, pick=6), ph(NEWTABLE_OPS + INPLACE_OPS, False, "r", 8), ph(INPLACE_OPS, False, "same", 4, "r"))],
         thorough=[ex(ph(NEWTABLE_OPS + INPLACE_OPS, True, "r", 60), ph(INPLACE_OPS, False, "same", 0, "r")),
                   ex(ph(LAYOUT), ph(NEWTABLE_OPS + INPLACE_OPS, False, "r"), ph(INPLACE_OPS, False, "same", 10, "r"))]),
+    "newtable_frame": model_campaign(
+        "newtable_frame", palettes=IDONLY, heaps="pairs",
+        quick=[ex(ph(["subsample", "collapse", "partition", "merge", "concat", "align_to"], False, "r")),
+               ex(ph(LAYOUT, pick=6), ph(["subsample", "collapse", "partition", "merge", "concat", "align_to"], False, "r", 8),
+                  ph(INPLACE_OPS, False, "same", 3, "r")),
+               ex(ph(LAYOUT, False, "same", 4, "b"), ph(["merge", "concat", "align_to"], False, "r"),
+                  ph(INPLACE_OPS, False, "same", 3, "r"))],
+        thorough=[ex(ph(LAYOUT), ph(["subsample", "collapse", "partition", "merge", "concat", "align_to"], True, "r", 40),
+                     ph(INPLACE_OPS, False, "same", 6, "r"))]),
     "inplace_twins": model_campaign(
         "inplace_twins", palettes=IDONLY,
         quick=[ex(ph(INPLACE_OPS, True, "r", 150)),
@@ -278,7 +287,8 @@ PROPERTIES = {
     },
     "C07": {
         "level": "model_checking",
-        "campaigns": [CAMPAIGNS["inplace_twins"], CAMPAIGNS["no_showthrough"], CAMPAIGNS["reorder_full"]],
+        "campaigns": [CAMPAIGNS["inplace_twins"], CAMPAIGNS["no_showthrough"], CAMPAIGNS["reorder_full"],
+                      CAMPAIGNS["newtable_frame"]],
         "assumptions": ["copy.deepcopy, scipy toarray and numpy are trusted for the projection"],
     },
     "C13": {
